@@ -115,6 +115,10 @@ def check_flow(chk, c, tmp, drv):
                 import h5py
 
                 p = os.path.join(tmp, f"flow_{abs(hash(key)) % 10**8}.h5")
+                # the proposal object is written more than once in practice (fit with a checkpoint path, then every
+                # sample_posterior re-writes it): the LAST file written is the one that is reloaded
+                with h5py.File(p, "w") as h:
+                    f.save(h, "flow")
                 with h5py.File(p, "w") as h:
                     f.save(h, "flow")
                 ref = lp(f, data[:20])
@@ -157,6 +161,20 @@ def check_stage(chk, c, f, xp, stage, data, drv, tol, sig, case):
         t = int(np.argmax(bad))
         chk.fail("log-density returned with the draws = log_prob at the draws", case,
                  f"{stage}: draw {t}: returned {lq[t]!r}, log_prob {lpx[t]!r}", {**sig, "clause": "agree"})
+    # (1b) log_prob is a pointwise function: one call on a very large batch (a quadrature grid, a reweighting of >1e5 draws) gives the
+    #      values of the same points evaluated in small calls
+    if stage == "trained" and c["backend"] == "zuko":
+        reps = 120_001 // len(x) + 1
+        big = np.tile(x, (reps, 1))[:120_001]
+        lpb = lp(f, big)
+        ref = np.tile(lpx, reps)[:120_001]
+        badb = ~(np.abs(lpb - ref) <= tol * (1 + np.abs(ref)) * 20)
+        chk.count("large_batch_points", len(big))
+        if lpb.shape != ref.shape or badb.any():
+            t = int(np.argmax(badb)) if lpb.shape == ref.shape else -1
+            chk.fail("log-density returned with the draws = log_prob at the draws", case,
+                     f"{stage}: one log_prob call on {len(big)} points: point {t} gives {lpb[t] if t >= 0 else None!r}, the same point in a small call "
+                     f"{ref[t] if t >= 0 else None!r} ({int(badb.sum()) if lpb.shape == ref.shape else 'shape'} points differ)", {**sig, "clause": "batch"})
     # (2) log_prob = base(T x) + log|J| with T and J from the model
     pts = np.vstack([data[:12], x[interior][:12]]) if interior.any() else data[:12]
     kinds = {"cls": "composite", "d": d, "lo": c["lo"], "hi": c["hi"], "bounded_kind": c["bounded"] if c["bounded"] != "off" else "logit",
